@@ -53,22 +53,53 @@ def extract():
     for k in ("MAX_SUPPORTED_MAJOR", "HELLO_API_MAJOR", "HELLO_API_MINOR"):
         if k not in out:
             raise TranslationError(f"connection.py: {k} not found")
-    # the back-off expression of reconnect_logic.py: tries = min(self._tries, CAP); wait = int(round(min(BASE ** tries, MAX)))
+    # the back-off expression of reconnect_logic.py: E = min(self._tries, CAP); ... int(round(min(BASE ** E, MAX))) ...
+    # (BASE, MAX, CAP numeric literals or module-level names bound once to numeric literals)
     rtree = ast.parse((PKG / "reconnect_logic.py").read_text())
-    for node in ast.walk(rtree):
+    rconsts = {}
+    for node in rtree.body:
+        tgt = None
         if isinstance(node, ast.Assign) and len(node.targets) == 1 and isinstance(node.targets[0], ast.Name):
             tgt, val = node.targets[0].id, node.value
-            if tgt == "tries" and isinstance(val, ast.Call) and ast.unparse(val.func) == "min" and len(val.args) == 2 \
-                    and ast.unparse(val.args[0]) == "self._tries":
-                out["BACKOFF_TRIES_CAP"] = literal(val.args[1], "min(self._tries, .)")
-            if tgt == "wait_time":
-                txt = ast.unparse(val)
-                import re
-                m = re.fullmatch(r"int\(round\(min\(([0-9.]+) \*\* tries, ([0-9.]+)\)\)\)", txt)
-                if not m:
-                    raise TranslationError(f"reconnect_logic.py: back-off expression outside the grammar: {txt}")
-                out["BACKOFF_BASE"] = Fraction(m.group(1))
-                out["BACKOFF_MAX"] = Fraction(m.group(2))
+        elif isinstance(node, ast.AnnAssign) and isinstance(node.target, ast.Name) and node.value is not None:
+            tgt, val = node.target.id, node.value
+        if tgt is not None and isinstance(val, ast.Constant) and type(val.value) in (int, float):
+            if tgt in rconsts:
+                raise TranslationError(f"reconnect_logic.py: {tgt} assigned twice")
+            rconsts[tgt] = Fraction(repr(val.value))
+
+    def rlit(node, where):
+        if isinstance(node, ast.Name) and node.id in rconsts:
+            return rconsts[node.id]
+        return literal(node, where)
+
+    def is_call(node, name, nargs):
+        return isinstance(node, ast.Call) and isinstance(node.func, ast.Name) and node.func.id == name \
+            and len(node.args) == nargs and not node.keywords
+
+    exps = []
+    for node in ast.walk(rtree):
+        if is_call(node, "int", 1) and is_call(node.args[0], "round", 1) and is_call(node.args[0].args[0], "min", 2):
+            pw, mx = node.args[0].args[0].args
+            if isinstance(pw, ast.BinOp) and isinstance(pw.op, ast.Pow) and isinstance(pw.right, ast.Name):
+                exps.append((pw.left, pw.right.id, mx))
+    if len(exps) != 1:
+        raise TranslationError(f"reconnect_logic.py: expected exactly one back-off expression int(round(min(B ** e, M))), found {len(exps)}")
+    base, expname, mx = exps[0]
+    out["BACKOFF_BASE"] = rlit(base, "back-off base")
+    out["BACKOFF_MAX"] = rlit(mx, "back-off maximum")
+    caps = []
+    for node in ast.walk(rtree):
+        if isinstance(node, ast.Assign) and len(node.targets) == 1 and isinstance(node.targets[0], ast.Name) \
+                and node.targets[0].id == expname:
+            val = node.value
+            if is_call(val, "min", 2) and ast.unparse(val.args[0]) == "self._tries":
+                caps.append(rlit(val.args[1], "min(self._tries, .)"))
+            else:
+                raise TranslationError(f"reconnect_logic.py: back-off exponent {expname} is not min(self._tries, CAP): {ast.unparse(val)}")
+    if len(caps) != 1:
+        raise TranslationError(f"reconnect_logic.py: back-off exponent {expname} assigned {len(caps)} times")
+    out["BACKOFF_TRIES_CAP"] = caps[0]
     # Bluetooth device request types and the feature bit consulted by bluetooth_device_connect (enum members, introspected)
     from aioesphomeapi import model as _model
     for member in ("CONNECT", "DISCONNECT", "PAIR", "UNPAIR", "CONNECT_V3_WITH_CACHE", "CONNECT_V3_WITHOUT_CACHE", "CLEAR_CACHE"):
